@@ -584,7 +584,10 @@ func (f *FeaturesByID) FindReferences(id b6.FeatureID, typed ...b6.FeatureType) 
 	if id.Type == b6.FeatureTypePoint && (len(typed) == 0 || slices.Contains(typed, b6.FeatureTypePath)) {
 		ids := f.findPathsByPoint(id, make([]b6.FeatureID, 0, 2))
 		paths := make([]b6.Feature, 0, len(ids))
-		for _, id := range ids {
+		for i, id := range ids {
+			if slices.Contains(ids[:i], id) {
+				continue // A path can pass through the same point more than once
+			}
 			if path, ok := f.FindFeatureByID(id).(b6.Feature); ok {
 				paths = append(paths, path)
 			}
